@@ -37,6 +37,7 @@ type FuncSpec struct {
 	IsIface    bool
 	Assume     bool // trusted contract of an external / unverified function
 	Implements []string
+	Uses       []string // lemmas made available to this function's obligations
 	Props      []string
 	Lets       []*Clause
 	Requires   []*Clause
@@ -55,6 +56,7 @@ type TypeSpec struct {
 	Name       string // "list_", pointer-ness is irrelevant
 	Models     map[string]*Clause
 	Invariants []*Clause
+	Hypotheses []*Clause // assumed at method entry, never checked (stated in the trusted base)
 	Flags      map[string]bool
 	GuardedBy  map[string]string // field -> mutex field
 	File       string
@@ -69,10 +71,11 @@ type Define struct {
 }
 
 type Axiom struct {
-	Name string
-	Text string
-	E    Expr
-	Pkg  string
+	Props []string
+	Name  string
+	Text  string
+	E     Expr
+	Pkg   string
 }
 
 type Decl struct {
@@ -98,7 +101,7 @@ var topKeywords = map[string]bool{"declare": true, "type": true, "func": true, "
 var subKeywords = map[string]bool{"requires": true, "ensures": true, "xensures": true, "invariant": true, "decreases": true,
 	"modifies": true, "let": true, "loop": true, "implements": true, "props": true, "pure": true, "nopanic": true, "inline": true,
 	"view": true, "modelfield": true, "guarded_by": true, "trusted": true, "safe": true, "opaque": true, "noverify": true, "immutable": true,
-	"mayblock": true, "terminates": true, "nilok": true, "noinv": true, "noxinv": true, "noframe": true, "constructor": true}
+	"uses": true, "hypothesis": true, "mayblock": true, "terminates": true, "nilok": true, "noinv": true, "noxinv": true, "noframe": true, "constructor": true}
 
 var clauseHead = regexp.MustCompile(`^([a-z_]+)(\[[A-Za-z0-9, ]+\])?\s*(.*)$`)
 
@@ -225,6 +228,14 @@ func (c *Contracts) loadFile(path string) error {
 			}
 			c.Defines[m[1]] = &Define{m[1], ps, e, body}
 		case "axiom", "lemma":
+			var ltags []string
+			if strings.HasPrefix(rest, "[") {
+				j := strings.Index(rest, "]")
+				for _, t := range strings.Split(rest[1:j], ",") {
+					ltags = append(ltags, strings.TrimSpace(t))
+				}
+				rest = strings.TrimSpace(rest[j+1:])
+			}
 			f := strings.SplitN(rest, ":", 2)
 			if len(f) != 2 {
 				return fmt.Errorf("%s:%d: axiom NAME: expr", path, b.head.line)
@@ -237,7 +248,7 @@ func (c *Contracts) loadFile(path string) error {
 			if err != nil {
 				return fmt.Errorf("%s:%d: %v", path, b.head.line, err)
 			}
-			a := &Axiom{strings.TrimSpace(f[0]), strings.TrimSpace(body), e, pkg}
+			a := &Axiom{ltags, strings.TrimSpace(f[0]), strings.TrimSpace(body), e, pkg}
 			if w == "axiom" {
 				c.Axioms = append(c.Axioms, a)
 			} else {
@@ -270,6 +281,8 @@ func (c *Contracts) loadFile(path string) error {
 				case "invariant":
 					cl.Ord = len(ts.Invariants) + 1
 					ts.Invariants = append(ts.Invariants, cl)
+				case "hypothesis":
+					ts.Hypotheses = append(ts.Hypotheses, cl)
 				case "guarded_by":
 					// guarded_by mutex_: a, b
 					f := strings.SplitN(cl.Text, ":", 2)
@@ -336,6 +349,8 @@ func (c *Contracts) loadFile(path string) error {
 					for _, k := range strings.Split(cl.Text, ",") {
 						fs.Implements = append(fs.Implements, strings.TrimSpace(k))
 					}
+				case "uses":
+					fs.Uses = append(fs.Uses, strings.Fields(strings.ReplaceAll(cl.Text, ",", " "))...)
 				case "props":
 					fs.Props = append(fs.Props, strings.Fields(strings.ReplaceAll(cl.Text, ",", " "))...)
 				default:
@@ -406,7 +421,7 @@ func parseClause(l rawLine, path string) (*Clause, error) {
 		}
 	}
 	switch cl.Kind {
-	case "requires", "ensures", "xensures", "invariant", "decreases", "view":
+	case "requires", "ensures", "xensures", "invariant", "decreases", "view", "hypothesis":
 		e, err := ParseExpr(cl.Text)
 		if err != nil {
 			return nil, fmt.Errorf("%s:%d: %v", path, l.line, err)
